@@ -1,6 +1,6 @@
 (* C19 — Every held request is answered exactly once. Only statements here. *)
 From Coq Require Import List ZArith.
-Require Import MTX.Lib.Trace MTX.Model.PathSM MTX.Proofs.PathSM MTX.Proofs.PathSM_Thms MTX.Proofs.PathSM_Events.
+Require Import MTX.Lib.Trace MTX.Model.PathSM MTX.Proofs.PathSM MTX.Proofs.PathSM_Thms MTX.Proofs.PathSM_Events MTX.Proofs.PathSM_Cycle.
 Import ListNotations.
 Local Open Scope Z_scope.
 
@@ -36,6 +36,64 @@ Theorem C19_answered_on_close : forall s q,
   In (EAnswer q (AErr E_TERMINATED)) (snd (step s Close)) /\ held (fst (step s Close)) = [].
 Proof. exact (c19_answered_on_close true). Qed.
 Print Assumptions C19_answered_on_close.
+
+(* the on-demand cycle of a runOnDemand path, step by step: first demand starts the command, arms the start
+   timer and holds the request; ... *)
+Theorem C19_cycle_start_on_demand : forall s q,
+  s_closed s = false -> s_stream s = None -> od_static (s_conf s) = false -> od_pub (s_conf s) = true ->
+  s_pubState s = OdInitial ->
+  let s' := fst (step s (Describe q)) in
+  s_pubState s' = OdWaiting /\ s_pubReadyT s' = true /\ s_hUnDemand s' = true /\
+  In (EOpen HDemand) (snd (step s (Describe q))) /\ In q (held s').
+Proof. exact (cycle_pub_start true). Qed.
+Print Assumptions C19_cycle_start_on_demand.
+
+(* ... the last reader leaving arms the close timer; ... *)
+Theorem C19_cycle_close_after_last_reader : forall s r,
+  s_closed s = false -> od_static (s_conf s) = false -> od_pub (s_conf s) = true ->
+  s_pubState s = OdReady -> s_readers s = [r] ->
+  let s' := fst (step s (RemoveReader r)) in
+  s_pubState s' = OdClosing /\ s_pubCloseT s' = true /\ s_readers s' = [].
+Proof. exact (cycle_pub_schedule_close true). Qed.
+Print Assumptions C19_cycle_close_after_last_reader.
+
+(* ... its expiry stops the command and returns to Initial, from where C19_cycle_start_on_demand applies again; *)
+Theorem C19_cycle_stop_then_restartable : forall s,
+  s_closed s = false -> s_pubState s = OdClosing -> s_pubCloseT s = true -> s_hUnDemand s = true ->
+  let s' := fst (step s (TimerFire TPubClose)) in
+  s_pubState s' = OdInitial /\ s_pubCloseT s' = false /\ s_hUnDemand s' = false /\
+  In (EClose HDemand) (snd (step s (TimerFire TPubClose))).
+Proof. exact (cycle_pub_stop true). Qed.
+Print Assumptions C19_cycle_stop_then_restartable.
+
+(* ... and the expiry of the start timer answers every held request with "timed out" and stops the command *)
+Theorem C19_cycle_timeout : forall s q,
+  s_closed s = false -> s_pubState s = OdWaiting -> s_pubReadyT s = true -> s_hUnDemand s = true ->
+  In q (held s) ->
+  let s' := fst (step s (TimerFire TPubReady)) in
+  s_pubState s' = OdInitial /\ s_hUnDemand s' = false /\ held s' = [] /\
+  In (EAnswer q (AErr E_TIMEOUT)) (snd (step s (TimerFire TPubReady))).
+Proof. exact (cycle_pub_timeout true). Qed.
+Print Assumptions C19_cycle_timeout.
+
+(* the same cycle for an on-demand static source (staticsources.Handler.Start / Stop) *)
+Theorem C19_cycle_static_start : forall s q,
+  s_closed s = false -> s_stream s = None -> od_static (s_conf s) = true ->
+  s_ssState s = OdInitial -> s_ssRunning s = false ->
+  let s' := fst (step s (Describe q)) in
+  s_ssState s' = OdWaiting /\ s_ssReadyT s' = true /\ s_ssRunning s' = true /\
+  In ESrcStart (snd (step s (Describe q))) /\ In q (held s').
+Proof. exact (cycle_static_start true). Qed.
+Print Assumptions C19_cycle_static_start.
+
+Theorem C19_cycle_static_stop : forall s g,
+  s_closed s = false -> s_ssState s = OdClosing -> s_ssCloseT s = true -> s_ssRunning s = true ->
+  s_stream s = Some g -> s_hUnavail s = true ->
+  let s' := fst (step s (TimerFire TSSClose)) in
+  s_ssState s' = OdInitial /\ s_ssCloseT s' = false /\ s_ssRunning s' = false /\ s_stream s' = None /\
+  In ESrcStop (snd (step s (TimerFire TSSClose))).
+Proof. exact (cycle_static_stop true). Qed.
+Print Assumptions C19_cycle_static_stop.
 
 (* the finding: before the repair (fix: commit 21d36a9 in the repository) the statement was false *)
 Theorem C19_held_has_deadline_refuted :
